@@ -28,6 +28,17 @@ func (r *Row) AddError(e error) {
 	r.ErrorContainer.AddError(e)
 }
 
+// AddErrorList records a list of errors against a row, dropping nil entries.
+// Like AddError it creates the row's own container on first use, so that
+// errors added in bulk to a row which has not joined a table yet are kept
+// until the table takes them over.
+func (r *Row) AddErrorList(el []error) {
+	if r.ErrorContainer == nil {
+		r.ErrorContainer = NewErrorContainer()
+	}
+	r.ErrorContainer.AddErrorList(el)
+}
+
 // NewRow creates a new Row.
 func NewRow() *Row {
 	return NewRowWithCapacity(10)
